@@ -199,8 +199,8 @@ def gen(rng, nrng, tier):
         yield ("func" if i % 2 == 0 else "class", {"x": x, "dkind": dk, "nfft": nfft, "window": name})
     n2 = 40 if tier == "quick" else 400
     for i in range(n2):
-        r = int(nrng.integers(2, 17))
-        c = int(nrng.integers(1, 5))
+        r = int(nrng.integers(2, 17)) if i % 5 else [1, 1, 2, 3][(i // 5) % 4]   # incl. one-row and square inputs
+        c = int(nrng.integers(1, 5)) if i % 5 else [2, 3, 2, 3][(i // 5) % 4]
         cplx = bool(nrng.integers(0, 2))
         x = nrng.standard_normal((r, c)) + (1j * nrng.standard_normal((r, c)) if cplx else 0)
         yield ("twod", {"x": x, "dkind": "noise", "nfft": nfft_choices(nrng, r), "window": names[(3 * i) % len(names)]})
